@@ -67,14 +67,14 @@ def decNat : List Char → Nat → Nat
 /-- the `match &captures[1]` (rs:108-221): `(start, end, message)` relative to the literal's token -/
 def capDiag (roblox : Bool) (q : QuoteKind) (c : Cap) : Option (Nat × Nat × String) :=
   let start := c.start
-  match c.g1 with
-  | ['u', '{'] =>
+  if c.g1 = ['u', '{'] then
     if !roblox then some (start, start + 2, msgInvalid)
     else if !c.g3 then some (start, start + c.g2.length + 3, msgMalformed)
     else
       -- `u32::from_str_radix(..).unwrap_or(0x110000)`: empty or overflowing digits are "too high"
       if c.g2.isEmpty || hexNat c.g2 0 > 0x10ffff then some (start, start + c.g2.length + 4, msgCodepoint)
       else none
+  else match c.g1 with
   | [d] =>
     if d = 'a' || d = 'b' || d = 'f' || d = 'n' || d = 'r' || d = 't' || d = 'v' || d = '\\' || d = '\r' then none
     else if isDec d then
